@@ -640,7 +640,43 @@ def refresh_archives_one_tick(ctx):
                 ctx.violation("archive-writer:" + short(f), "who-may-write", f.loc(w), "archive_ written outside refresh()")
     ctx.ok("archive-writers", "who-may-write", rf.loc(), "archive_ is written only by refresh()")
 
+def readers_return_values_as_parsed(ctx):
+    """'Raw values (memory.current, memory.stat, cgroup.stat, io.stat, ...) parse exactly': the kernel-file readers of Fs hand out what the
+    file says.  None of them passes a parsed number through std::min / std::max / std::clamp (a 'sanity' bound between two counters the
+    kernel keeps separately - dying vs live descendants, say - replaces a true reading by another number), and the single-key readers
+    return the map entry itself."""
+    P, cg = ctx.prog, ctx.cg
+    n = 0
+    for f in sorted(P.fns.values(), key=lambda x: (x.file, x.line, x.usr)):
+        owner = f
+        while owner.kind == "lambda" and owner.d.get("parentfn") in P.fns:
+            owner = P.fns[owner.d["parentfn"]]
+        if f.file != "oomd/util/Fs.cpp" or not re.match(r"^Oomd::Fs::(read|get)\w+", owner.pq):
+            continue
+        n += 1
+        for i in f.calls():
+            c = plain(f.nodes[i].get("callee") or "")
+            if re.match(r"^std::(min|max|clamp|abs)$", c):
+                ctx.use(f)
+                ctx.violation("readers-return-values-as-parsed:%s@%d" % (short(owner), f.nodes[i].get("line", 0)), "who-may-call (value-rewriting calls in the readers)", f.loc(i),
+                              "%s passes what it read through %s (%s): the statistic handed out is no longer the number in the kernel file whenever the bound is "
+                              "the smaller / larger one" % (owner.pq, c, f.text(i)[:70]))
+    ctx.counters["fs_reader_functions"] = n
+    ctx.floor("fs_reader_functions", 20, "reader functions of Fs (read* / get*)")
+    g = ctx.fn1("Oomd::Fs::getNrDyingDescendantsAt")
+    X = Expander(P, g)
+    for r, leaf in return_leaves(g):
+        t = X(leaf)
+        if "systemError" in t or "SYSTEM_ERROR" in t or t.startswith("Oomd::systemError"):
+            continue
+        ctx.check(re.search(r'\[(std::\w+::key_type\()?"nr_dying_descendants"|\.at\((std::\w+::key_type\()?"nr_dying_descendants"|find\((std::\w+::key_type\()?"nr_dying_descendants"[^)]*\)*->second', t) is not None
+                  and "min(" not in t and "max(" not in t,
+                  "readers-return-values-as-parsed:nr_dying_descendants@%d" % g.nodes[r].get("line", 0), "provenance (Expander)", g.loc(r),
+                  "the reader returns the nr_dying_descendants entry of cgroup.stat", "getNrDyingDescendantsAt returns %s - not the nr_dying_descendants entry as parsed" % t[:100])
+
+
 def run(ctx):
+    readers_return_values_as_parsed(ctx)
     cached_slot_types_agree(ctx)
     memory_protection_scheme(ctx)
     borrowed_fd_not_consumed(ctx)
